@@ -335,23 +335,16 @@ c10_radix!(c10_radix_be_i8_r256, BIntD8<1>, 8, u8x1, from_radix_be, true, 4, 1, 
 // ---------------------------------------------------------------- 16-bit targets (thorough)
 c10_str!(c10_str_u8x2_r2, BUintD8<2>, false, 16, u8x2, 19, 16, 21, [2]);
 c10_str!(c10_str_u8x2_r16, BUintD8<2>, false, 16, u8x2, 7, 4, 9, [16]);
-c10_str!(c10_str_u8x2_r8, BUintD8<2>, false, 16, u8x2, 9, 6, 11, [8]);
 c10_str!(c10_str_u8x2_r10, BUintD8<2>, false, 16, u8x2, 8, 5, 10, [10]);
-c10_str!(c10_str_u8x2_r36, BUintD8<2>, false, 16, u8x2, 7, 4, 9, [36]);
 c10_str!(c10_str_i8x2_r16, BIntD8<2>, true, 16, i8x2, 7, 4, 9, [16]);
 c10_str!(c10_str_i8x2_r10, BIntD8<2>, true, 16, i8x2, 8, 5, 10, [10]);
-c10_fromstr!(c10_fromstr_u8x2, BUintD8<2>, false, 16, u8x2, 8, 5, 10);
-c10_bytes!(c10_bytes_u8x2_r16, BUintD8<2>, false, 16, u8x2, 7, 4, 9, [16]);
 c10_radix!(c10_radix_be_u8x2_r16, BUintD8<2>, 16, u8x2, from_radix_be, true, 7, 4, 9, [16]);
 c10_radix!(c10_radix_le_u8x2_r10, BUintD8<2>, 16, u8x2, from_radix_le, false, 8, 5, 10, [10]);
 c10_radix!(c10_radix_be_u8x2_r256, BUintD8<2>, 16, u8x2, from_radix_be, true, 5, 2, 7, [256]);
 c10_radix!(c10_radix_le_u8x2_r256, BUintD8<2>, 16, u8x2, from_radix_le, false, 5, 2, 7, [256]);
 c10_radix!(c10_radix_be_i8x2_r256, BIntD8<2>, 16, u8x2, from_radix_be, true, 5, 2, 7, [256]);
 c10_str!(c10_str_u16x1_r16, BUintD16<1>, false, 16, u16x1, 7, 4, 9, [16]);
-c10_str!(c10_str_u16x1_r4, BUintD16<1>, false, 16, u16x1, 11, 8, 13, [4]);
 c10_str!(c10_str_u16x1_r10, BUintD16<1>, false, 16, u16x1, 8, 5, 10, [10]);
-c10_str!(c10_str_u16x1_r32, BUintD16<1>, false, 16, u16x1, 7, 4, 9, [32]);
-c10_radix!(c10_radix_be_u16x1_r10, BUintD16<1>, 16, u16x1, from_radix_be, true, 8, 5, 10, [10]);
 c10_radix!(c10_radix_le_u16x1_r16, BUintD16<1>, 16, u16x1, from_radix_le, false, 7, 4, 9, [16]);
 c10_radix!(c10_radix_le_u16x1_r256, BUintD16<1>, 16, u16x1, from_radix_le, false, 5, 2, 7, [256]);
 
